@@ -4,7 +4,7 @@ use crate::gen::prog::Style;
 use crate::util::*;
 
 pub fn run(ctx: &Ctx) -> Report {
-    let mut rep = Report::new("base, label, block-layout and 1-2 statement programs rendered under the line-affecting style dimensions (label placement x4, comment/blank-line/CRLF style x3, leading blank lines, indentation, missing final newline) and, for base programs, the full style product; every line checked line->address and address->line against the renderer's own bookkeeping; exact line_iter set. non-trivial = assembled program with >=1 memory-occupying statement");
+    let mut rep = Report::new("base, label, block-layout and 1-2 statement programs rendered under the line-affecting style dimensions (label placement x4, comment/blank-line/CRLF style x3, leading blank lines, indentation, missing final newline) and, for base programs, the full style product; every line checked line->address and address->line against the renderer's own bookkeeping; exact line_iter set. Linked files: 3 debug-symbol files whose texts carry every combination of 8 leading/trailing affixes, linked as ordered pairs and triples from either side (and read back through both file formats): every member statement's address maps to a line holding that statement's text, lookup_line inverts rev_lookup_line, and line_iter has exactly one entry per statement. non-trivial = assembled program with >=1 memory-occupying statement");
     // line-affecting styles: label(4) x line(3) at primary positions 6,7 ; secondary leading_blank/final_newline/indent
     let mut styles: Vec<(u64, u64)> = vec![];
     for label in 0..4u64 { for line in 0..3u64 { for sec in [DEFAULT_SECONDARY, 1 + 20, 1 + 40, 1 + 80, 1 + 20 + 40 + 80, 2 + 4 * 2] {
@@ -20,7 +20,11 @@ pub fn run(ctx: &Ctx) -> Report {
         Plan { fam: "F1", styles: vec![(0, DEFAULT_SECONDARY), (11 * 324, 1 + 20)], debug: vec![true], stride: 1 },
     ];
     run_plans(ctx, &mut rep, "C24", &plans, &|i| i.accepted && i.image_words > 0);
+    super::linksrc::run_for(ctx, &mut rep, "C24");
     rep.require(rep.acc.nontrivial > 5_000, "programs with memory-occupying statements were assembled with debug symbols");
     rep
 }
-pub fn replay(case: &str) -> Option<String> { replay_case("C24", case) }
+pub fn replay(case: &str) -> Option<String> {
+    if case.starts_with("ls:") { return super::linksrc::replay_for("C24", case); }
+    replay_case("C24", case)
+}
